@@ -19,27 +19,43 @@ func main() {
 	if len(os.Args) > 1 {
 		iters, _ = strconv.Atoi(os.Args[1])
 	}
-	// isolated results, sequentially
-	var iso []string
-	for _, b := range bodies.Bodies {
-		var keep []bodies.Retained
-		iso = append(iso, b.Run(&keep))
-	}
+	// NOTHING of the code under test runs before the goroutines start: the first calls of the process are
+	// concurrent (lazily initialised tables, caches). The expected results are computed afterwards, sequentially.
+	nb := len(bodies.Bodies)
 	var wg sync.WaitGroup
 	var mu sync.Mutex
 	bad := map[string]string{}
 	g := 16
+	seen := make([]map[string]bool, nb) // every distinct result observed per body
+	for i := range seen {
+		seen[i] = map[string]bool{}
+	}
+	start := make(chan struct{})
 	for w := 0; w < g; w++ {
 		wg.Add(1)
 		go func(w int) {
 			defer wg.Done()
 			var keep []bodies.Retained
+			local := make([]map[string]bool, nb)
+			for i := range local {
+				local[i] = map[string]bool{}
+			}
+			<-start
 			for i := 0; i < iters; i++ {
-				k := (i*7 + w*3) % len(bodies.Bodies)
-				r := bodies.Bodies[k].Run(&keep)
-				if r != iso[k] {
+				k := (i*7 + w*3) % nb
+				var r string
+				func() {
+					defer func() {
+						if p := recover(); p != nil {
+							r = fmt.Sprintf("PANIC: %v", p)
+						}
+					}()
+					r = bodies.Bodies[k].Run(&keep)
+				}()
+				if !local[k][r] {
+					local[k][r] = true
 					mu.Lock()
-					bad["result-depends-on-concurrency/"+bodies.Bodies[k].Name] = fmt.Sprintf("%q, alone %q", r, iso[k])
+					seen[k][r] = true
 					mu.Unlock()
 				}
 				if i%64 == 0 {
@@ -58,7 +74,18 @@ func main() {
 			}
 		}(w)
 	}
+	close(start)
 	wg.Wait()
+	// expected results, sequentially, after the concurrent phase
+	for k, b := range bodies.Bodies {
+		var keep []bodies.Retained
+		iso := b.Run(&keep)
+		for r := range seen[k] {
+			if r != iso {
+				bad["result-depends-on-concurrency/"+b.Name] = fmt.Sprintf("%q, alone %q", r, iso)
+			}
+		}
+	}
 	if !bodies.SharedUnchanged() {
 		bad["shared-object-changed"] = "a shared read-only object changed"
 	}
